@@ -46,7 +46,10 @@
      machine: cur | seeded (SeekToRow marks unopened leaves, open() does not position) | spec
      ops: c<hex j> (a cursor that needs leaf j is created) | r<hex n>[:<j>.<j>...] (Next; the leaves whose
           first row is to be reported) | s<hex k>
-     answer: per op  d | w<first>.<count>[;<j>=<first row leaf j delivered>...] | e (io.EOF) | k | o (out of range) *)
+     answer: per op  d | w<first>.<count>[;<j>=<first row leaf j delivered>...] | e (io.EOF) | k | o (out of range)
+   c08.mrows / c08.mgrows / c08.reader (machines idx, noidx, idx1, noidx1, spec) also take the op c<hex d>
+     (parquet.CopyRows(dst, reader), Cursor/Copy.v: ReadRows(42) until io.EOF); answer: the batch of the
+     whole copy, i<first>.<count>/1 (i/1: no row left; /0: the copy did not end on io.EOF) *)
 open Conv
 
 let nat_of_hex s = nat_of_int (int_of_string ("0x" ^ s))
@@ -214,6 +217,14 @@ let tok_of_vout (o : Model.vout) (seen : int list) =
           | Some r -> Printf.sprintf ";%x=%x" j (int_of_nat r)
           | None -> Printf.sprintf ";%x=-" j) seen)
 
+(* histories with copies (Cursor/Copy.v): c<hex d> = parquet.CopyRows(dst of kind d, reader); the
+   destination is not part of the model *)
+let is_copy_tok t = String.length t > 1 && t.[0] = 'c'
+let has_copy ops = List.exists is_copy_tok (String.split_on_char ',' ops)
+let kops_of_tok (f : string -> 'a) ops : 'a Model.kop list =
+  list_of_tok (fun t -> if is_copy_tok t then Model.KCopy else Model.KOp (f t)) ops
+let copy_fuel rows = nat_of_int (rows / 42 + 3)
+
 let () =
   register "c08.variant" (function
     | [m; leaves; rows; ops] ->
@@ -254,8 +265,20 @@ let () =
   register "c08.mrows" (function
     | [m; cols; ops] ->
         let cols = cols1_of_tok cols in
-        let ops = list_of_tok rop_of_tok ops in
         let ncols = List.length cols in
+        if has_copy ops then begin
+          let kops = kops_of_tok rop_of_tok ops in
+          let n = nat_sum (List.hd cols) in
+          let fuel = copy_fuel n in
+          let outs =
+            match m with
+            | "idx" -> Model.run_mrows_indexed_k cols fuel kops
+            | "noidx" -> Model.run_mrows_noindex_k cols fuel kops
+            | "spec" -> Model.run_mspec_k true (nat_of_int ncols) (nat_of_int n) fuel kops
+            | _ -> failwith "c08.mrows machine (copies)" in
+          tok_of_list (tok_of_mout ncols) outs
+        end else
+        let ops = list_of_tok rop_of_tok ops in
         let outs =
           match m with
           | "idx" -> Model.run_mrows_indexed cols ops
@@ -307,8 +330,20 @@ let () =
   register "c08.mgrows" (function
     | [m; cols; ops] ->
         let cols = colsn_of_tok cols in
-        let ops = list_of_tok rop_of_tok ops in
         let ncols = List.length cols in
+        if has_copy ops then begin
+          let kops = kops_of_tok rop_of_tok ops in
+          let n = nat_sum (List.concat (List.hd cols)) in
+          let fuel = copy_fuel n in
+          let outs =
+            match m with
+            | "idx" -> Model.run_mgrows_indexed_k cols fuel kops
+            | "noidx" -> Model.run_mgrows_noindex_k cols fuel kops
+            | "spec" -> Model.run_mspec_k false (nat_of_int ncols) (nat_of_int n) fuel kops
+            | _ -> failwith "c08.mgrows machine (copies)" in
+          tok_of_list (tok_of_mout ncols) outs
+        end else
+        let ops = list_of_tok rop_of_tok ops in
         let outs =
           match m with
           | "idx" -> Model.run_mgrows_indexed cols ops
@@ -322,8 +357,22 @@ let () =
     | [m; cols; ops] ->
         let colsn = colsn_of_tok cols in
         let cols1 () = List.map (function [c] -> c | _ -> failwith "c08.reader: one chunk per column expected") colsn in
-        let ops = list_of_tok xop_of_tok ops in
         let ncols = List.length colsn in
+        if has_copy ops then begin
+          let kops = kops_of_tok xop_of_tok ops in
+          let n = nat_sum (List.concat (List.hd colsn)) in
+          let fuel = copy_fuel n in
+          let outs =
+            match m with
+            | "idx" -> Model.run_reader_indexed_k colsn fuel kops
+            | "noidx" -> Model.run_reader_noindex_k colsn fuel kops
+            | "idx1" -> Model.run_reader1_indexed_k (cols1 ()) fuel kops
+            | "noidx1" -> Model.run_reader1_noindex_k (cols1 ()) fuel kops
+            | "spec" -> Model.run_xspec_k (nat_of_int ncols) (nat_of_int n) fuel kops
+            | _ -> failwith "c08.reader machine (copies)" in
+          tok_of_list (tok_of_mout ncols) outs
+        end else
+        let ops = list_of_tok xop_of_tok ops in
         let outs =
           match m with
           | "idx" -> Model.run_reader_indexed colsn ops
